@@ -22,7 +22,7 @@ func sample(units []*rt.Unit, rng *rand.Rand, keep func(*rt.Unit) bool, frac flo
 }
 
 func init() {
-	families["C05"] = &rt.Family{Prop: "C05", Module: "MC_C05", PackSize: 8,
+	families["C05"] = &rt.Family{Prop: "C05", JudgeBuild: true, Module: "MC_C05", PackSize: 8,
 		Unbounded: []rt.ApaCheck{
 			{Module: "BoundsInd", Inv: "Agree", Expect: "NoError", What: "for ALL integers: the transcribed NormalizeBounds + genBoundary accept x iff x satisfies every stated bound"},
 			{Module: "BoundsInd", Inv: "AgreeTie", Expect: "Error", What: "the comparison before fix ee8f4ce (> / < instead of >= / <=) disagrees on a tie: the deviation switch is necessary"},
@@ -40,7 +40,7 @@ func init() {
 }
 
 func init() {
-	families["C06"] = &rt.Family{Prop: "C06", Module: "MC_C06", PackSize: 8,
+	families["C06"] = &rt.Family{Prop: "C06", JudgeBuild: true, Module: "MC_C06", PackSize: 8,
 		Rule: "units = minLength {absent,0,1,2} x maxLength {absent,0,1,2,3} x pattern {absent + 4 patterns} x 7 positions; documents = every string over a 5-character alphabet (1,1,2,3,4 UTF-8 bytes) up to length 3 (quick) / 4 (thorough), absent, null. distinct_nontrivial = distinct (unit, document) pairs with a definite reference verdict",
 		ExtraCfg: func(tier string) string {
 			if tier == "thorough" {
@@ -51,7 +51,7 @@ func init() {
 }
 
 func init() {
-	families["C07"] = &rt.Family{Prop: "C07", Module: "MC_C07", PackSize: 8,
+	families["C07"] = &rt.Family{Prop: "C07", JudgeBuild: true, Module: "MC_C07", PackSize: 8,
 		// same-named types of two documents (or of one document) that differ only in the limits of an array property
 		More: []rt.Extra{{Module: "MC_C10", ExtraCfg: tierCfg, Keep: func(u *rt.Unit) bool {
 			k := u.Str("kind")
@@ -78,17 +78,17 @@ func twoDocsDefaults(u *rt.Unit) bool {
 var c10More = rt.Extra{Module: "MC_C10", ExtraCfg: tierCfg, Keep: twoDocs}
 
 func init() {
-	families["C04"] = &rt.Family{Prop: "C04", Module: "MC_C04", PackSize: 8, More: []rt.Extra{c10More},
+	families["C04"] = &rt.Family{Prop: "C04", JudgeBuild: true, Module: "MC_C04", PackSize: 8, More: []rt.Extra{c10More},
 		Rule: "units = every subset of {a,b,c,n,zz} as `required` of an object with properties a:integer, b:[string,null], c:integer with default, n:nested object with its own required key (zz undeclared) x 9 container contexts (root, property, array item, definition, items of an array definition, 3 allOf shapes incl. a required-only branch and a $ref branch, anyOf); documents = every assignment of absent/present/null to the keys (108 per unit, 180 for anyOf). distinct_nontrivial = distinct (unit, document) pairs with a definite reference verdict"}
 }
 
 func init() {
-	families["C03"] = &rt.Family{Prop: "C03", Module: "MC_C03", PackSize: 8, More: []rt.Extra{c10More},
+	families["C03"] = &rt.Family{Prop: "C03", JudgeBuild: true, Module: "MC_C03", PackSize: 8, More: []rt.Extra{c10More},
 		Rule: "units = 14 typed position kinds (string, integer, number, boolean, array of integer, object, 5 string formats, 3 non-string types carrying a string format) x nullable x 7 contexts (required/optional property, array item depth 1/2, definition, nested property, typed additionalProperties value); documents = 21 JSON value shapes of every type (null, booleans, integral and non-integral numbers, plain and format strings, arrays, objects) at the position. distinct_nontrivial = distinct (unit, document) pairs with a definite reference verdict"}
 }
 
 func init() {
-	families["C15"] = &rt.Family{Prop: "C15", Module: "MC_C15", PackSize: 8,
+	families["C15"] = &rt.Family{Prop: "C15", JudgeBuild: true, Module: "MC_C15", PackSize: 8,
 		Unbounded: []rt.ApaCheck{
 			{Module: "IntSizeInd", Inv: "Holds", Expect: "NoError", What: "for ALL integer constants: the chosen type holds the admitted interval whenever a 64-bit type can"},
 			{Module: "IntSizeInd", Inv: "Narrowest", Expect: "NoError", What: "no narrower signed or unsigned type holds the admitted interval"},
@@ -100,7 +100,7 @@ func init() {
 }
 
 func init() {
-	families["C08"] = &rt.Family{Prop: "C08", Module: "MC_C08", PackSize: 1, Judge: "value", Consts: true,
+	families["C08"] = &rt.Family{Prop: "C08", JudgeBuild: true, Module: "MC_C08", PackSize: 1, Judge: "value", Consts: true,
 		Rule: "units = every ordered list of up to 3 distinct atoms of {\"a\",\"bé\",1,2,1.5,true,false,null} conforming to the declared type (absent, string, integer, number, boolean, null, [string,null]) x 5 uses (required, optional, via $ref, array items, optional with default); documents = the 8 atoms, 4 non-members of different JSON types, absent. Judged: verdict, decoded value and re-marshalled value (bare JSON value), and the typed string constants read from the emitted source. distinct_nontrivial = distinct (unit, document) pairs with a definite reference verdict"}
 }
 
@@ -131,7 +131,7 @@ func frac(q, t float64) func(string) float64 {
 }
 
 func init() {
-	families["C02"] = &rt.Family{Prop: "C02", Module: "MC_C02", PackSize: 1, Judge: "value",
+	families["C02"] = &rt.Family{Prop: "C02", JudgeBuild: true, Module: "MC_C02", PackSize: 1, Judge: "value",
 		More: []rt.Extra{
 			{Module: "MC_C03"}, {Module: "MC_C04"}, {Module: "MC_C08"}, {Module: "MC_C09"},
 			{Module: "MC_C11", Frac: frac(0.15, 1)}, {Module: "MC_C15", ExtraCfg: tierCfg, Frac: frac(0.03, 0.1)},
@@ -154,7 +154,7 @@ func init() {
 }
 
 func init() {
-	families["C17"] = &rt.Family{Prop: "C17", Module: "MC_C02", PackSize: 1, Judge: "yaml", ForceExtraImports: true, Calls: rt.YamlCalls,
+	families["C17"] = &rt.Family{Prop: "C17", JudgeBuild: true, Module: "MC_C02", PackSize: 1, Judge: "yaml", ForceExtraImports: true, Calls: rt.YamlCalls,
 		More: []rt.Extra{
 			{Module: "MC_C04", Frac: frac(0.5, 1)}, {Module: "MC_C08", Frac: frac(0.2, 1)}, {Module: "MC_C09"},
 			{Module: "MC_C06", ExtraCfg: maxStr(2, 3), Frac: frac(0.3, 1)},
